@@ -19,6 +19,7 @@ import NV.C03.Spec
 import NV.C03.Model
 import NV.C03.Frontend
 import NV.C03.HashMap
+import NV.C03.Macro
 
 namespace NV.C03
 
@@ -333,7 +334,57 @@ def judgeDump (line : String) : Option String :=
     else none
   | _ => none
 
+/-! ## mdef: handle_define against the real lexer (harness/c03/c03lex.c) -/
+
+def isBlank (c : Char) : Bool := c == ' ' || c == '\t'
+
+/-- the parameter list parser of handle_define (GETDEFINE / SKIPWHITE); input starts after the `(` -/
+partial def parseParams (cs : List Char) (acc : List (List Char)) : Option (List (List Char) × List Char) :=
+  let cs := cs.dropWhile isBlank
+  match cs with
+  | ')' :: rest => if acc.isEmpty then some ([], rest) else none
+  | _ =>
+    let p := cs.takeWhile (fun c => Macro.isAlunum c || c == '#')
+    let r := (cs.drop p.length).dropWhile isBlank
+    match r with
+    | ')' :: rest => some (acc ++ [p], rest)
+    | ',' :: rest => parseParams rest (acc ++ [p])
+    | _ => none
+
+/-- `#define` text -> (name, parameters or none, body text as handle_define sees it) -/
+def parseDefine (text : String) : Option (List Char × Option (List (List Char)) × List Char) :=
+  let cs := text.toList
+  let name := cs.takeWhile Macro.isAlunum
+  match cs.drop name.length with
+  | '(' :: rest =>
+    match parseParams rest [] with
+    | some (ps, body) => some (name, some ps, body)
+    | none => none
+  | c :: rest => if isBlank c || c == '\\' then some (name, none, c :: rest) else none
+  | [] => none
+
+/-- defn_t.exps: MARKS MARKS for a literal MARKS, MARKS (MARKS + 1 + n) for parameter n -/
+def encodeItems (items : List Macro.Item) : List Nat :=
+  items.flatMap (fun it => match it with
+    | .ch c => if c.toNat == NV.Gen.C03.macroMarks then [c.toNat, c.toNat] else [c.toNat]
+    | .arg n => [NV.Gen.C03.macroMarks, NV.Gen.C03.macroMarks + 1 + n])
+
+def storedText (useSpec : Bool) (ps : Option (List (List Char))) (body : List Char) : List Nat :=
+  match ps with
+  | none => body.map Char.toNat
+  | some ps => encodeItems (if useSpec then Macro.specDefine ps body else Macro.handleDefine ps body)
+
+def mdefLine (useSpec : Bool) (text : String) : String :=
+  match parseDefine text with
+  | none => s!"D {String.ofList (text.toList.takeWhile Macro.isAlunum)} !unparsed"
+  | some (name, ps, body) =>
+    let n : Int := match ps with | none => -1 | some l => l.length
+    s!"D {String.ofList name} nargs={n} exps={String.join ((storedText useSpec ps body).map hexByte)}"
+
 def runModel (lines : List String) : List String :=
+  if lines.any (fun l => l.startsWith "mdef ") then
+    lines.filterMap (fun l => if l.startsWith "mdef " then some (mdefLine false (l.drop 5).toString) else none)
+  else
   match lines.find? (fun l => l.startsWith "maptrace ") with
   | some l => runMapTrace (toks (l.drop 9).toString)
   | none =>
@@ -354,6 +405,17 @@ def clip (s : String) : String := if s.length > 160 then (s.take 160).toString +
 
 def runJudge (body : List String) : List String :=
   let (input, impl) := splitJudge body
+  if input.any (fun l => l.startsWith "mdef ") then
+    -- oracle: what the real handle_define stored must be the textbook template of the definition
+    let want := input.filterMap (fun l => if l.startsWith "mdef " then some (mdefLine true (l.drop 5).toString) else none)
+    let crash := impl.filter (fun l => l.startsWith "crash" || l.startsWith "sanitizer")
+    let bad := (want.zip (impl.filter (fun l => l.startsWith "D "))).filterMap (fun (w, g) =>
+      if w == g then none else some s!"bad macro-body stored text differs from the textbook template: impl={clip g} spec={clip w}")
+    match crash.map (fun l => s!"bad impl-crash {clip l}") ++ bad ++
+          (if (impl.filter (fun l => l.startsWith "D ")).length != want.length then ["bad macro-body missing dump"] else []) with
+    | [] => ["ok"]
+    | vs => vs
+  else
   if input.any (fun l => l.startsWith "maptrace ") then
     let crash := impl.filter (fun l => l.startsWith "crash" || l.startsWith "sanitizer")
     match crash.map (fun l => s!"bad impl-crash {clip l}") ++ impl.filterMap judgeDump with
